@@ -1,6 +1,7 @@
 // Command probe19 prints the C19 differential-probe lines (see package probe19).
 //
 //	probe19 -seed 1 -n 2000 [-type substring] [-core] > lines.txt
+//	probe19 -decode -seed 1 -n 2000 > decode-lines.txt
 package main
 
 import (
@@ -16,7 +17,16 @@ func main() {
 	n := flag.Int("n", 2000, "number of values (distributed round-robin over the covered types)")
 	filter := flag.String("type", "", "only types whose proto name contains this substring")
 	core := flag.Bool("core", false, "only the core types (current-version msgs, stored records, params, genesis; marked * in the type list)")
+	decode := flag.Bool("decode", false, "decode probe: mutate the real bytes, print `pbd <name> <hex> => <decoded value text>|err:...`")
 	flag.Parse()
+
+	if *decode {
+		if err := probe19.RunDecode(probe19.Config{Seed: *seed, N: *n, Filter: *filter, Core: *core, Out: os.Stdout, Log: os.Stderr}); err != nil {
+			fmt.Fprintln(os.Stderr, "probe19: ERROR:", err)
+			os.Exit(1)
+		}
+		return
+	}
 
 	err := probe19.Run(probe19.Config{Seed: *seed, N: *n, Filter: *filter, Core: *core, Out: os.Stdout, Log: os.Stderr})
 	if err != nil {
